@@ -255,6 +255,19 @@ var c18Universe = []string{"int", "string", "len", "nil", "true", "false", "erro
 
 func c18Package(c *fw.Ctx, id string, srcs map[string]string, withImporter bool) {
 	c.Case(id, func() {
+		for attempt := 0; attempt < 16; attempt++ {
+			if !c18PackageOnce(c, id, srcs, withImporter) {
+				return
+			}
+		}
+		c.Count("inconclusive_package_name_depends_on_map_order", 1)
+	})
+}
+
+// c18PackageOnce runs one comparison; it returns true when the two sides selected different
+// package names (possible only with mismatching package clauses) and the case should be repeated.
+func c18PackageOnce(c *fw.Ctx, id string, srcs map[string]string, withImporter bool) (retry bool) {
+	func() {
 		parse := func() (*token.FileSet, map[string]*ast.File) {
 			fset := token.NewFileSet()
 			m := map[string]*ast.File{}
@@ -356,8 +369,10 @@ func c18Package(c *fw.Ctx, id string, srcs map[string]string, withImporter bool)
 			c.Violate("newpackage/"+rule, "newpackage/"+rule, id+": "+detail, strings.Join(all, "\n"))
 		}
 		if apkg.Name != dpkg.Name {
-			// with mismatching package clauses the chosen name depends on map order on both sides
-			c.Count("inconclusive_package_name_depends_on_map_order", 1)
+			// with mismatching package clauses the chosen name depends on map iteration order on
+			// both sides: the case is repeated (fresh parse) until both select the same name
+			c.Count("retries_package_name_depends_on_map_order", 1)
+			retry = true
 			return
 		}
 		// a name declared more than once: which declaration wins depends on map iteration order
@@ -432,7 +447,8 @@ func c18Package(c *fw.Ctx, id string, srcs map[string]string, withImporter bool)
 		if len(apkg.Scope.Objects) >= 5 {
 			c.Nontrivial(id)
 		}
-	})
+	}()
+	return retry
 }
 
 func runC18(c *fw.Ctx) {
@@ -526,7 +542,11 @@ func runC18(c *fw.Ctx) {
 		pool := []string{"alpha", "beta", "gamma", "clash", "T", "Println"}
 		for k := 0; k < nf; k++ {
 			var sb strings.Builder
-			sb.WriteString("package p\n\n")
+			if k == nf-1 && gr.Intn(4) == 0 {
+				sb.WriteString("package q\n\n") // a file that belongs to a different package
+			} else {
+				sb.WriteString("package p\n\n")
+			}
 			switch gr.Intn(5) {
 			case 0:
 				sb.WriteString("import \"x/fmt\"\n\n")
